@@ -12,8 +12,12 @@ HERE = os.path.dirname(os.path.dirname(os.path.abspath(__file__)))
 
 
 def main():
+    # usage: seedimport.py [results-file [glob-of-output-dirs [suffix]]]
+    resfile = sys.argv[1] if len(sys.argv) > 1 else 'seed_results.txt'
+    pattern = sys.argv[2] if len(sys.argv) > 2 else '/tmp/mut_*_out/C*/'
+    suffix = sys.argv[3] if len(sys.argv) > 3 else ''
     results = {}
-    with open(os.path.join(HERE, 'scratch', 'seed_results.txt')) as f:
+    with open(os.path.join(HERE, 'scratch', resfile)) as f:
         for line in f:
             m = re.match(r'seed=(\S+) property=(\S+) demo_clean_rc=(\d+) applies=(\S+)(?: demo_patched_rc=(\d+))?(?: pinned_tests=(\S+))?(.*)', line.strip())
             if not m:
@@ -28,7 +32,7 @@ def main():
                              'pinned_tests': tests or prev.get('pinned_tests'), 'checks': checks,
                              'missed_before': missed_before}
     n = 0
-    for d in sorted(glob.glob('/tmp/mut_*_out/C*/')):
+    for d in sorted(glob.glob(pattern)):
         seed = os.path.basename(os.path.dirname(d))
         if seed not in results or not os.path.exists(os.path.join(d, 'patch.diff')):
             continue
@@ -36,7 +40,7 @@ def main():
         if not (r['applies'] == 'yes' and r['demo_clean_rc'] == 0 and r['demo_patched_rc'] == 1):
             print('not confirmed:', seed, r)
             continue
-        dst = os.path.join(HERE, 'seeded', seed)
+        dst = os.path.join(HERE, 'seeded', seed + suffix)
         os.makedirs(dst, exist_ok=True)
         for name in ('patch.diff', 'demo.py'):
             shutil.copy(os.path.join(d, name), os.path.join(dst, name))
